@@ -364,6 +364,17 @@ def check(repo: Repo, run: Run) -> None:
         if name not in bound:
             run.ob("R2", MOD, "from_kd_buf", f"field {name}", False, f"Kevent has no field {name} bound")
             continue
+        foreign = sorted({sym.pretty(x)[:60] for x in sym.walk(bound[name])
+                          if x.op in ("global", "attr", "param", "widen", "elem", "lambda")
+                          and not (x.op == "param" and x == inp)
+                          and not (x.op == "global" and x.a[0] in ("struct.unpack", "struct.unpack_from", "int.from_bytes"))
+                          and not (x.op == "attr" and x.a[0].op == "builtin")})
+        if foreign:
+            run.ob("R2", MOD, "from_kd_buf", f"field {name}", False,
+                   f"{name} depends on {foreign[:3]}: the decoded field is not a function of the record's own bytes alone "
+                   f"(a table, cache or other state decides the value for some records)",
+                   facts={"term": sym.pretty(bound[name])[:200]})
+            continue
         try:
             got = ev.ev(bound[name])
         except Raises as e:
